@@ -57,6 +57,11 @@ pub fn get_num_children(parent_resolution: i32, child_resolution: i32) -> usize 
     if child_resolution == parent_resolution {
         return 1;
     }
+    // There are no cells beyond MAX_RESOLUTION (get_num_cells reports 0 there); this also keeps
+    // the power below within usize for every pair of i32 resolutions
+    if child_resolution > MAX_RESOLUTION {
+        return 0;
+    }
     if parent_resolution >= FIRST_HILBERT_RESOLUTION {
         // Between levels of constant aperture of 4, relation simplifies
         return 4_usize.pow((child_resolution - parent_resolution) as u32);
